@@ -1170,8 +1170,8 @@ _VARIANT = {}
 
 
 def library_variant():
-    """which form the two repaired sites have in the library under test (probed once per process):
-    (seed guard raises SeedNodeDeletionException, prune_nodes honours its flags)"""
+    """which form the repaired sites have in the library under test (probed once per process):
+    (seed guard raises SeedNodeDeletionException, prune_nodes honours its flags, to_outgroup_position re-orders first)"""
     if "v" not in _VARIANT:
         import dendropy
         from dendropy.utility import error as dperr
@@ -1186,7 +1186,16 @@ def library_variant():
         t = dendropy.Tree.get(data="((A,B)x,(C,D)y)r;", schema="newick")
         t.prune_nodes([t.find_node_with_taxon_label("A")], suppress_unifurcations=True)
         tail = all(len(n._child_nodes) != 1 for n in t.preorder_node_iter())
-        _VARIANT["v"] = (guard, tail)
+        # to_outgroup_position: outgroup moved to the front BEFORE reseed_at (repair 1c81f78b)?  With the old order a
+        # one-child outgroup is suppressed inside reseed_at and remove_child then raises ValueError
+        t = dendropy.Tree.get(data="(((A:1):2,B:2):3,C:1);", schema="newick")
+        og = [n for n in t.preorder_node_iter() if len(n._child_nodes) == 1][0]
+        try:
+            t.to_outgroup_position(og, suppress_unifurcations=True)
+            ogfirst = t.seed_node._parent_node is None
+        except Exception:
+            ogfirst = False
+        _VARIANT["v"] = (guard, tail, ogfirst)
     return _VARIANT["v"]
 
 
@@ -1224,15 +1233,15 @@ def c_case(case, obs):
                                                      "None" if snap["err"] is None else "(Some %s)" % snap["err"],
                                                      zflat(enc_tree(snap["tree"])), ob(snap["rooted"]),
                                                      cbool(incr), c_enc))
-    g, tl = library_variant()
-    return "(mkCase (mkVariants %s %s) %s %s %s)" % (cbool(g), cbool(tl), trees.c_tree(case["init"]),
-                                                    ob(case["rooted"]), clist(steps))
+    g, tl, ogf = library_variant()
+    return "(mkCase (mkVariants %s %s %s) %s %s %s)" % (cbool(g), cbool(tl), cbool(ogf), trees.c_tree(case["init"]),
+                                                       ob(case["rooted"]), clist(steps))
 
 
 def to_coq(case, obs):
     if case.get("probe"):
         # probes are judged by the oracle only (the resulting state may be cyclic)
-        return "(mkCase (mkVariants false false) %s %s [])" % (trees.c_tree(case["init"]), ob(case["rooted"]))
+        return "(mkCase (mkVariants false false false) %s %s [])" % (trees.c_tree(case["init"]), ob(case["rooted"]))
     return c_case(case, obs)
 
 
